@@ -151,6 +151,7 @@ func checkC16(c *Ctx) *core.Result {
 	// ---- field-writer audit: token pos/len only in assign; val only in assign and the pass function
 	assign, pass := a.Fn("sql.assign"), a.Fn("sql.pass")
 	tokName := a.TypeName("sql.token")
+	assignOnly, valWriters := calledOnlyFrom(p, assign), calledOnlyFrom(p, assign, pass)
 	for _, fn := range p.SourceFuncs(nil) {
 		for _, b := range fn.Blocks {
 			for _, ins := range b.Instrs {
@@ -164,13 +165,13 @@ func checkC16(c *Ctx) *core.Result {
 				}
 				switch fr.Field {
 				case a.Fields["sql.token.pos"], a.Fields["sql.token.len"]:
-					if fn == assign {
+					if assignOnly[fn] {
 						r.OK("A-writer", core.QualName(fn), "store token."+fr.Field, p.Pos(st.Pos()), "assign")
 					} else {
 						r.Fail("A-writer", core.QualName(fn), "store token."+fr.Field, p.Pos(st.Pos()), "token offset/length written outside assign: value and offset can drift apart")
 					}
 				case a.Fields["sql.token.val"]:
-					if fn == assign || fn == pass {
+					if valWriters[fn] {
 						r.OK("A-writer", core.QualName(fn), "store token.val", p.Pos(st.Pos()), "")
 					} else {
 						r.Fail("A-writer", core.QualName(fn), "store token.val", p.Pos(st.Pos()), "token value written outside assign")
